@@ -114,6 +114,9 @@ class C18(Prop):
                 mostly_valid = rng.random() < 0.6
                 cmd = tokn() if mostly_valid or rng.random() < 0.5 else s()
                 pfx = None if rng.random() < 0.5 else (tokn() if mostly_valid else s())
+                if rng.random() < 0.2:
+                    # prefixes that carry colons themselves (IPv6 hosts): only the FIRST colon of the line marks the prefix
+                    pfx = rng.choice([':', '::', '::1', ':a', 'a:b', ':x!u@::1', 'n!u@2001:db8::1', ':::'])
                 nargs = rng.randint(0, 4)
                 args = [(tokn() if mostly_valid and rng.random() < 0.8 else s()) for _ in range(nargs)]
                 if args and rng.random() < 0.5:
@@ -141,6 +144,12 @@ class C18(Prop):
                 cases.append(c)
             else:
                 line = ''.join(rng.choice(STR_ALPHA + ['PRIVMSG', ' ', ' ', 'nick!u@h']) for _ in range(rng.randint(0, 8)))
+                if rng.random() < 0.35:
+                    # structured lines: [':' prefix ' '] command {' ' middle} [' :' trailing], with colons in every part
+                    pre = rng.choice(['', '', ':n!u@h ', '::1 ', ':: ', ':::a ', ':a:b ', ': '])
+                    mids = ''.join(' ' + rng.choice(['#c', 'a:b', '::1', 'x', 'é', 'k:']) for _ in range(rng.randint(0, 3)))
+                    trail = rng.choice(['', ' :hi there', ' ::', ' :a :b', ' : x'])
+                    line = pre + rng.choice(['PRIVMSG', '001', 'x']) + mids + trail
                 line = line.replace('\n', '').replace('\r', '') if rng.random() < 0.7 else line
                 cases.append({'k': 'irc_parse', 'line': line})
         return cases
